@@ -35,31 +35,41 @@ Proof. exact owner_forest_refuted_without_wf. Qed.
 Print Assumptions C04_owner_forest_refuted_without_wf.
 
 (* Whatever the ownership state and whatever the answers of the geometric tests, every parent that BuildTree64's owner
-   search (RecursiveCheckOwners + CheckSplitOwner, in each of its shapes own_first/mark_owner) gives to a polygon passed
-   the code's own containment tests for exactly that pair: Path1InsidePath2(child, parent) and
+   search (RecursiveCheckOwners + CheckSplitOwner, in each of its shapes guard_pointless/own_first/mark_chain) gives to a
+   polygon passed the code's own containment tests for exactly that pair: Path1InsidePath2(child, parent) and
    parent.bounds.Contains(child.bounds).  (That Path1InsidePath2 agrees with true containment, and that the accepted
    parent is the innermost container, is NOT proved -- that is what the exact checker tree_check validates.) *)
 Theorem C04_tree_parent_inside :
-  forall (inside bcontains : nat -> nat -> bool) (bempty is_open : nat -> bool) (own_first mark_owner : bool) fuel m m' t i p,
-    build_tree inside bcontains bempty is_open own_first mark_owner fuel m = Some (Some (m', t)) ->
+  forall (inside bcontains : nat -> nat -> bool) (bempty is_open : nat -> bool) (guard_pointless own_first mark_chain : bool)
+         fuel m m' t i p,
+    build_tree inside bcontains bempty is_open guard_pointless own_first mark_chain fuel m = Some (Some (m', t)) ->
     parent_of t i = Some (Some p) -> inside i p = true /\ bcontains p i = true.
 Proof. exact tree_parent_inside. Qed.
 Print Assumptions C04_tree_parent_inside.
 
-(* CheckSplitOwner (with its recursive_split marker and the unprotected "#942" descent into the split list of a split
-   without points) terminates in every state whose owner graph is a forest and in which no chain of point-less OutRecs
-   through split lists returns to itself (rk decreases along such chains) -- whatever the geometric tests answer. *)
+(* CheckSplitOwner as it is in the snapshot (recursive_split marker, unprotected "#942" descent into the split list of a
+   split without points) terminates in every state whose owner graph is a forest and in which no chain of point-less
+   OutRecs through split lists returns to itself (rk decreases along such chains) -- whatever the geometric tests answer. *)
 Theorem C04_check_split_terminates : forall inside bcontains (rk : nat -> nat) m i spl,
   acyclic m -> (forall a o, owner_of m a = Some o -> o < length m) ->
   (forall s s2, pts_of m s = false -> In s2 (splits_of m s) -> pts_of m s2 = false -> rk s2 < rk s) ->
-  exists fuel r, check_split_owner inside bcontains fuel m i spl = Some r.
+  exists fuel r, check_split_owner inside bcontains false fuel m i spl = Some r.
 Proof. exact check_split_terminates. Qed.
 Print Assumptions C04_check_split_terminates.
 
 (* Without the hypothesis on point-less OutRecs the statement is false: an OutRec without points whose split list contains
-   itself sends CheckSplitOwner into an unbounded recursion (replayed on the real function by the check: stack overflow).
-   Whether the sweep can produce such a state is not known; no dumped state of any run contained one. *)
+   itself sends CheckSplitOwner into an unbounded recursion.  The sweep DOES produce such states (MoveSplits copies a split
+   list that contains the receiving OutRec, which later loses its points), and Execute(..., PolyTree64&) overflows the stack
+   on them: triage/demos/C04-stack-overflow.cpp.  The check replays the witness on the real CheckSplitOwner. *)
 Theorem C04_check_split_terminates_refuted_pointless_cycle : forall inside bcontains,
-  exists m i spl, forall fuel, check_split_owner inside bcontains fuel m i spl = None.
+  exists m i spl, forall fuel, check_split_owner inside bcontains false fuel m i spl = None.
 Proof. exact check_split_refuted_pointless_cycle. Qed.
 Print Assumptions C04_check_split_terminates_refuted_pointless_cycle.
+
+(* With the repair (the descent into the split list of a point-less split is protected by the same marker) CheckSplitOwner
+   terminates in every state whose owner graph is a forest, without any hypothesis on the split lists. *)
+Theorem C04_check_split_guarded_terminates : forall inside bcontains m i spl,
+  acyclic m -> (forall a o, owner_of m a = Some o -> o < length m) ->
+  exists fuel r, check_split_owner inside bcontains true fuel m i spl = Some r.
+Proof. exact check_split_guarded_terminates. Qed.
+Print Assumptions C04_check_split_guarded_terminates.
